@@ -77,7 +77,7 @@ var richTemplates = []string{
 	"@resume.type", "@resume", "@resume.dial.status", "@node.uuid", "@node.visit_count", "@globals.org_name", "@globals",
 	"@(now())", "@(today())", "@(rand_between(1, 100))", "@(json(results))", "@(json(run.results))", "@(json(contact))", "@(json(input))", "@(json(trigger.params))",
 	"@(format_datetime(run.created_on))", "@(if(is_error(child), \"nochild\", child.status))", "@(default(parent.results.r0.category, \"np\"))",
-	"@(foreach(contact.groups, (g) => g.name))", "@(count(results))", "@(results.r0.value & input.text)", "@(is_error(webhook_nope))",
+	"@(\"Салам\" + ) !", "@(\"日本語\" 1)", "@(contact.имя)", "@(\"é\" & )", "@(foreach(contact.groups, (g) => g.name))", "@(count(results))", "@(results.r0.value & input.text)", "@(is_error(webhook_nope))",
 }
 
 // the two exempted context values
@@ -295,6 +295,10 @@ func (g *richGen) router(nodeID int, exits []int, flowType string) map[string]an
 			c["type"], c["arguments"] = "has_phrase", []string{g.tpl()}
 		default:
 			c["type"], c["arguments"] = "has_only_phrase", []string{hx.Pick(r, words)}
+		}
+		if r.Chance(1, 6) {
+			// tests that return a piece of the operand: the piece must be cut between characters
+			c["type"], c["arguments"] = hx.Pick(r, []string{"has_beginning", "has_phrase", "has_any_word", "has_pattern"}), []string{hx.Pick(r, []string{"k\ufffd", "k", "é", "ſ", "ǆ", "K.", "İ"})}
 		}
 		cases = append(cases, c)
 	}
@@ -672,6 +676,9 @@ func (sc *Scenario) hasTag(t string) bool {
 
 func runRich(o *hx.Opts, rnd *hx.Rand, res *hx.Result) {
 	n := o.Count(300, 15000)
+	if localClock {
+		n = o.Count(60, 600) // child process under TZ=…: a reduced stream
+	}
 	for i := 0; i < n; i++ {
 		r := rnd.Fork(fmt.Sprintf("rich%d", i))
 		var sc *Scenario
